@@ -1,9 +1,11 @@
 package lab
 
 import (
+	"bytes"
 	"context"
 	"encoding/base64"
 	"fmt"
+	"io"
 	"math/rand"
 	"net"
 	"os"
@@ -52,6 +54,10 @@ type AuthProc struct {
 	exited  chan struct{}
 	Conn    *grpc.ClientConn
 	Client  auth.AuthenticateClient
+
+	faultMu  sync.Mutex
+	faultOff int64
+	faults   []string
 }
 
 type AuthUser struct{ Name, Password string }
@@ -127,6 +133,24 @@ func (p *AuthProc) Stop() {
 		syscall.Kill(-p.Cmd.Process.Pid, syscall.SIGKILL)
 		<-p.exited
 	}
+}
+
+// Faults scans the service log incrementally for runtime fault signatures.
+func (p *AuthProc) Faults() []string {
+	p.faultMu.Lock()
+	defer p.faultMu.Unlock()
+	f, err := os.Open(p.LogPath)
+	if err != nil {
+		return append([]string(nil), p.faults...)
+	}
+	defer f.Close()
+	f.Seek(p.faultOff, 0)
+	b, _ := io.ReadAll(f)
+	if i := bytes.LastIndexByte(b, '\n'); i >= 0 {
+		p.faultOff += int64(i + 1)
+		p.faults = append(p.faults, ScanFaults(string(b[:i+1]))...)
+	}
+	return append([]string(nil), p.faults...)
 }
 
 func (p *AuthProc) LogText() string {
